@@ -123,6 +123,15 @@ def rotate (c : SCfg) (s : S) : S :=
   let s3 := if s2.gateClosed then s2 else flushAll c s2
   put s3 0
 
+/-- a rotation whose flush fails at the manifest write (`LogEdits` returns an error): the table is
+never installed, the log pointer does not move, the memtable stays in memory and is not retried;
+its WAL segment must stay.  (Pending flushes run first: the gate is opened.) -/
+def flushFail (c : SCfg) (s : S) : S :=
+  let s0 := flushAll c { s with gateClosed := false }
+  let s1 := put s0 0
+  let s2 := { s1 with segs := s1.segs ++ [Segm.mk s1.next [] [] true], active := s1.next, next := s1.next + 1 }
+  put s2 0
+
 def spanSeg (spans : List (Nat × Nat × Nat)) (k : Nat) : Option Nat :=
   (spans.find? (fun sp => decide (sp.1 ≤ k) && decide (k ≤ sp.2.1))).map (·.2.2)
 
@@ -231,7 +240,7 @@ def neededKept (s : S) : Bool := s.segs.all (fun sg => !needed s sg || sg.presen
 
 inductive Op
   | put (k : Nat) | rapp (g n : Nat) | rhs (g : Nat) | rtrunc (g k : Nat)
-  | rotate | gate (closed : Bool) | watchdog | crash
+  | rotate | gate (closed : Bool) | watchdog | crash | flushFail
   deriving DecidableEq, Repr
 
 def step (c : SCfg) (s : S) : Op → S
@@ -243,6 +252,7 @@ def step (c : SCfg) (s : S) : Op → S
   | .gate b => gate c s b
   | .watchdog => watchdog c s
   | .crash => crash c s
+  | .flushFail => flushFail c s
 
 def run (c : SCfg) (ops : List Op) : S := ops.foldl (step c) {}
 
